@@ -1,5 +1,6 @@
 """C15 - session automaton life-cycle."""
 from props.base import *
+NEEDS_VIEW = True     # reads the public fields of the automata objects
 COQ_TARGETS = ['props/Properties_C15.vo']
 EXPECT_KEYS = {'sess'}
 RULE = ('exhaustive single steps: 4 states x session events 0..7 x elapsed {0, t-1, t, t+1, 10t} s with t = 1 (one scenario per cell, '
